@@ -812,10 +812,14 @@ struct Dumper
     std::vector<std::string> invariants(bool returned_normally_without_errors)
     {
         std::vector<std::string> bad;
+        // an object whose uid is the null symbol is not "the user object of its own symbol" either; asking a null symbol
+        // for its name or data would crash the predicate instead of reporting it
+        auto nameof = [](const symbol_t& s) { return s == symbol_t() ? std::string("<no symbol>") : s.get_name(); };
+        auto dataof = [](const symbol_t& s) -> const void* { return s == symbol_t() ? nullptr : s.get_data(); };
         auto chk_vars = [&](std::list<variable_t>& vars, const std::string& where) {
             for (auto& v : vars)
-                if (v.uid.get_data() != &v)
-                    bad.push_back("variable " + where + "/" + v.uid.get_name() + ": uid.get_data() != &variable");
+                if (dataof(v.uid) != &v)
+                    bad.push_back("variable " + where + "/" + nameof(v.uid) + ": uid.get_data() != &variable");
         };
         std::function<void(Statement*, const std::string&)> walk_stat;
         struct BW : AbstractStatementVisitor
@@ -849,8 +853,10 @@ struct Dumper
         auto chk_decls = [&](declarations_t& d, const std::string& where) {
             chk_vars(d.variables, where);
             for (auto& f : d.functions) {
-                if (f.uid.get_data() != &f)
-                    bad.push_back("function " + where + "/" + f.uid.get_name() + ": uid.get_data() != &function");
+                if (dataof(f.uid) != &f) {
+                    bad.push_back("function " + where + "/" + nameof(f.uid) + ": uid.get_data() != &function");
+                    continue;
+                }
                 chk_vars(f.variables, where + "/" + f.uid.get_name());
                 if (f.body) {
                     BW bw;
@@ -860,9 +866,11 @@ struct Dumper
             }
         };
         auto chk_instance = [&](instance_t& inst, const std::string& what, bool is_process) {
-            const std::string nm = what + " " + inst.uid.get_name();
-            if (inst.uid.get_data() != &inst)
+            const std::string nm = what + " " + nameof(inst.uid);
+            if (dataof(inst.uid) != &inst)
                 bad.push_back(nm + ": uid.get_data() != &object");
+            if (inst.uid == symbol_t())
+                return;
             size_t np = inst.parameters == frame_t() ? 0 : inst.parameters.get_size();
             if (inst.unbound > np)
                 bad.push_back(nm + ": unbound " + std::to_string(inst.unbound) + " > parameters " + std::to_string(np));
@@ -897,24 +905,24 @@ struct Dumper
             (void)is_process;
         };
         auto chk_template = [&](template_t& t, const std::string& what) {
-            const std::string nm = what + " " + t.uid.get_name();
-            if (t.uid.get_data() != static_cast<instance_t*>(&t))
+            const std::string nm = what + " " + nameof(t.uid);
+            if (dataof(t.uid) != static_cast<instance_t*>(&t))
                 bad.push_back(nm + ": uid.get_data() != &template");
             chk_instance(t, what, false);
             // chk_instance compared against &inst which is the instance_t subobject: same pointer, fine
             chk_decls(t, nm);
             int i = 0;
             for (auto& l : t.locations) {
-                if (l.uid.get_data() != &l)
-                    bad.push_back(nm + ": location " + l.uid.get_name() + ": uid.get_data() != &location");
+                if (dataof(l.uid) != &l)
+                    bad.push_back(nm + ": location " + nameof(l.uid) + ": uid.get_data() != &location");
                 if (l.nr != i)
                     bad.push_back(nm + ": location #" + std::to_string(i) + " has nr " + std::to_string(l.nr));
                 ++i;
             }
             i = 0;
             for (auto& b : t.branchpoints) {
-                if (b.uid.get_data() != &b)
-                    bad.push_back(nm + ": branchpoint " + b.uid.get_name() + ": uid.get_data() != &branchpoint");
+                if (dataof(b.uid) != &b)
+                    bad.push_back(nm + ": branchpoint " + nameof(b.uid) + ": uid.get_data() != &branchpoint");
                 if (b.bpNr != i)
                     bad.push_back(nm + ": branchpoint #" + std::to_string(i) + " has nr " + std::to_string(b.bpNr));
                 ++i;
